@@ -8,7 +8,9 @@ CONSTANTS
  ExtSetUp = TRUE
  KF_OpenAfterClose = FALSE
  KF_GuardOnVisibleOnly = FALSE
- KF_SurvivorsOnly = FALSE
+KF_SurvivorsOnly = FALSE
+KF_RetryUnguarded = FALSE
+MaxRetry = 2
 INVARIANT C07_OneAtATime
 PROPERTIES C07_NoOpenAfterClose C07_GcStep C07_NoOpenOnBreak C12_GameBlindFixed C12_GameBlindAtOpen C08_PauseIff C08_SetUpEnough
 CHECK_DEADLOCK FALSE
